@@ -3,11 +3,15 @@ import OjgVerif.Diff.Lemmas
 
 Statements are about the model of `alt/diff.go` (`Diff/Model.lean`), which the correspondence run
 ties to the Go code, for every Go map iteration order (`OrdOK ord`) and both data flavours.
-`Dev` names the four places where the unchanged code deviates from the property; the theorems are
+`Dev` names the four places where the pinned code deviated from the property; the theorems are
 proved for every `D : Dev` on the inputs that the switched-on deviations cannot touch (`Clear`).
-For `Dev.fixed` (the code with the proposed fixes) `Clear` is empty and the statements are the
-property at full strength; for `Dev.current` they are the `_partial` theorems, and the full
-statement is refuted from a concrete witness per deviation. -/
+For `Dev.fixed` `Clear` is empty and the statements are the property at full strength.
+Three of the four defects are repaired in the repository (`fix:` commits c0c8224, 2f372fe, 36b721b);
+`Dev.current` — the code as it is now — keeps only `floatRound` (known finding C19-int-float-2p53):
+`C19_current` is the property at full strength with the single exclusion "the integers of the right
+tree are below 2^53 in magnitude", `C19_full_false` refutes the statement without it. The per-flag
+witnesses (`full_false_lastIndex`, `_tailSkip`, `_genRoot`) stay as the record of the repaired
+defects: they are about the model with the flag switched on. -/
 namespace OjgVerif.C19
 open OjgVerif OjgVerif.Diff
 
@@ -151,7 +155,8 @@ theorem full_fixed : Full Dev.fixed := by
 /-- C19 for the code as it is -/
 def C19_full : Prop := Full Dev.current
 
-/-- the code as it is satisfies C19 on every input that is clear of the four named deviations -/
+/-- the code as it is satisfies C19 on every input that is clear of the deviations still switched on
+(generic form; `C19_current` below spells it out for today's `Dev.current`) -/
 theorem C19_partial {ord : List Bytes → List Bytes} (hord : OrdOK ord) {fl : Flavour} {a b : JV} {ign : List Path}
     (ha : Int64Tree a) (hc : Clear Dev.current fl a b ign) :
     (∀ p, p ∈ (diff Dev.current ord fl a b ign).map norm ↔ LeafDiff a b p ∧ ¬ Ignored ign p) ∧
@@ -161,6 +166,41 @@ theorem C19_partial {ord : List Bytes → List Bytes} (hord : OrdOK ord) {fl : F
     (altMatch Dev.current fl a b = true ↔ FpMatch a b) :=
   ⟨diff_exact hord ha hc, diff_empty hord ha hc, compare_none _ _ _ _ _ _, fun _ => compare_mem _ _ _ _ _ _,
     match_iff ha hc.flt hc.gen⟩
+
+/-- every exclusion but the 2^53 one is void for the code as it is now -/
+theorem clear_current {fl : Flavour} {a b : JV} {ign : List Path} (hb : AllInts IsFloatExact b) :
+    Clear Dev.current fl a b ign :=
+  ⟨fun h => (by simp [Dev.current] at h), fun h => (by simp [Dev.current] at h), fun _ => hb,
+    fun h => (by simp [Dev.current] at h)⟩
+
+/-- **C19 for the code as it is now**: for every map iteration order, both data flavours, every
+ignore set and every pair of trees (integers of the left tree fitting int64), provided the
+integers of the right tree are below 2^53 in magnitude (the only place they matter is a comparison
+with a float on the left, which goes through `float64(int)`): Diff returns exactly the leaf
+differences that no ignore path covers — hence it is empty iff the trees are equivalent modulo the
+ignore paths, sound and complete —, Compare is nil iff Diff is empty and otherwise one of Diff's
+paths, and Match is the fingerprint relation. No exclusion on ignore paths or generic roots. -/
+theorem C19_current {ord : List Bytes → List Bytes} (hord : OrdOK ord) {fl : Flavour} {a b : JV} {ign : List Path}
+    (ha : Int64Tree a) (hb : AllInts IsFloatExact b) :
+    (∀ p, p ∈ (diff Dev.current ord fl a b ign).map norm ↔ LeafDiff a b p ∧ ¬ Ignored ign p) ∧
+    (diff Dev.current ord fl a b ign = [] ↔ EquivModulo ign a b) ∧
+    (∀ p, p ∈ diff Dev.current ord fl a b ign →
+      DiffersAt a b (norm p) ∧ LeafDiff a b (norm p) ∧ ¬ Ignored ign (norm p)) ∧
+    (∀ q, LeafDiff a b q → ¬ Ignored ign q → ∃ p, p ∈ diff Dev.current ord fl a b ign ∧ norm p <+: q) ∧
+    (Diff.compare Dev.current ord fl a b ign = none ↔ diff Dev.current ord fl a b ign = []) ∧
+    (∀ p, Diff.compare Dev.current ord fl a b ign = some p → p ∈ diff Dev.current ord fl a b ign) ∧
+    (altMatch Dev.current fl a b = true ↔ FpMatch a b) :=
+  have hc : Clear Dev.current fl a b ign := clear_current hb
+  ⟨diff_exact hord ha hc, diff_empty hord ha hc, fun _ hp => diff_sound hord ha hc hp,
+    fun _ hq hi => diff_complete hord ha hc hq hi, compare_none _ _ _ _ _ _, fun _ => compare_mem _ _ _ _ _ _,
+    match_iff ha hc.flt hc.gen⟩
+
+/-- without ignore paths, for the code as it is now: Diff is empty exactly when the trees are equal
+up to numeric width and null-versus-absent members -/
+theorem C19_current_equiv {ord : List Bytes → List Bytes} (hord : OrdOK ord) {fl : Flavour} {a b : JV}
+    (ha : Int64Tree a) (hb : AllInts IsFloatExact b) :
+    diff Dev.current ord fl a b [] = [] ↔ Equiv a b :=
+  diff_empty_iff_equiv hord ha (clear_current hb)
 
 /-! ## witnesses: each deviation alone refutes the full statement -/
 
@@ -187,7 +227,21 @@ theorem w1a_int64 : Int64Tree w1a := by
     simp only [List.mem_cons, List.not_mem_nil, or_false] at hkv
     rcases hkv with rfl | rfl <;> exact AllInts.int _ (by decide)
 
-/-- `Diff(a, b, Path{0,"a"}, Path{1,"b"})` is `[[0 a]]`: the ignored `[0].a` is reported … -/
+theorem w1b_exact : AllInts IsFloatExact w1b := by
+  refine AllInts.arr _ (fun x hx => ?_)
+  simp only [List.mem_cons, List.not_mem_nil, or_false] at hx
+  rcases hx with rfl | rfl <;>
+  · refine AllInts.obj _ (fun kv hkv => ?_)
+    simp only [List.mem_cons, List.not_mem_nil, or_false] at hkv
+    rcases hkv with rfl | rfl <;> exact AllInts.int _ (by decide)
+
+/-- a non-trivial instance of the one remaining hypothesis, on the former multi-index witness: the
+ignore paths `Path{0,"a"}, Path{1,"b"}` need no exclusion any more -/
+example : (∀ p, p ∈ (diff Dev.current id .simple w1a w1b w1ign).map norm ↔
+    LeafDiff w1a w1b p ∧ ¬ Ignored w1ign p) :=
+  (C19_current ordOK_id w1a_int64 w1b_exact).1
+
+/-- before c0c8224: `Diff(a, b, Path{0,"a"}, Path{1,"b"})` is `[[0 a]]`: the ignored `[0].a` is reported … -/
 theorem w1_model : diff ⟨true, false, false, false⟩ id .simple w1a w1b w1ign = [[.idx 0, .key kA]] := by
   decide +kernel
 
@@ -241,7 +295,7 @@ theorem w3a_int64 : Int64Tree w3a := by
 
 theorem w3_model : diff ⟨false, false, true, false⟩ id .simple w3a w3b [[.idx 1]] = [[.idx 2]] := by decide +kernel
 
-/-- `Diff([1,2,3], [1], Path{1})` is `[[2]]`: not a leaf difference (the length mismatch lives at
+/-- before 2f372fe: `Diff([1,2,3], [1], Path{1})` is `[[2]]`: not a leaf difference (the length mismatch lives at
 `[1]`, which is ignored; with the arrays swapped the code returns nothing) -/
 theorem full_false_tailSkip : ¬ Full ⟨false, false, true, false⟩ := by
   intro h
@@ -253,7 +307,7 @@ theorem full_false_tailSkip : ¬ Full ⟨false, false, true, false⟩ := by
 
 theorem w4_model : diff ⟨false, false, false, true⟩ id .gen (.int 3) (.flt [51]) [] = [here] := by decide +kernel
 
-/-- `Diff(gen.Int(3), gen.Float(3))` is `[[nil]]` although 3 = 3.0 -/
+/-- before 36b721b: `Diff(gen.Int(3), gen.Float(3))` is `[[nil]]` although 3 = 3.0 -/
 theorem full_false_genRoot : ¬ Full ⟨false, false, false, true⟩ := by
   intro h
   have h1 := (h id ordOK_id .gen (.int 3) (.flt [51]) [] (AllInts.int _ (by decide))).1 []
